@@ -35,7 +35,9 @@ TRUSTED = [
     "AttributeError before solving; the harness exercises that path only under an in-process shim "
     "qutip.Options=dict and only as a numerical oracle (tolerance 2e-3)",
     "save/reload is not checked on the scale families: the %1.16f file format is absolute (external numerics)",
-    "cubic pulses: only the numerical oracle 'interpolates its samples / zero outside its grid' on get_full_coeffs",
+    "cubic pulses: only numerical oracles on get_full_coeffs: 'interpolates its samples / zero outside its grid', equality with scipy "
+    "CubicSpline through the channel's own samples on the merged grid (2-5 samples per channel, interleaved grids; exact line / parabola for "
+    "2 / 3 samples), and agreement with the get_qobjevo operator at merged grid points inside every channel's grid",
     "the solver-operator oracle evaluates QobjEvo only at midpoints of merged intervals longer than 1e-6 "
     "(qutip's step interpolation applies its own tolerance next to grid points)",
 ]
@@ -631,6 +633,8 @@ def oracle_case(inp, impl=None, proc=None, mats=None, solver=False, files=True, 
         return fails
     if kind == "cubic":
         oracle_cubic(inp, impl, fail)
+        if not fails and proc is not None and mats is not None:
+            oracle_cubic_operator(inp, impl, proc, mats, fail)
         return fails
     if not in_theorem_domain(inp):
         if in_theorem_domain(inp, need_sep=False) and all(isinstance(c["coeff"], list) for c in inp["channels"]):
@@ -903,6 +907,64 @@ def oracle_cubic(inp, impl, fail):
                 fail("cubic coefficient does not interpolate its samples", dict(channel=m, t=str(t), value=float(row[n])),
                      dict(value=float(e)))
                 return
+    # BETWEEN the samples: the continuous coefficient is the cubic (not-a-knot) spline through the channel's OWN samples, evaluated
+    # on the merged grid (scipy CubicSpline = the external function the model leaves abstract); for 2 samples that is the straight
+    # line and for 3 samples the parabola through them, which are evaluated here exactly as well
+    from scipy.interpolate import CubicSpline
+    g = np.array([float(t) for t in grid])
+    for m, ch in enumerate(inp["channels"]):
+        tl = [fr(x) for x in ch["tlist"]]
+        cf = [fr(x) for x in ch["coeff"]]
+        if len(tl) != len(cf) or len(tl) < 2 or any(b <= a for a, b in zip(tl, tl[1:])):
+            continue
+        a = np.array([float(x) for x in tl])
+        exp = CubicSpline(a, np.array([float(x) for x in cf]))(g) * (g <= a[-1]) * (g >= a[0])
+        row = [float(x) for x in impl["rows"][m]]
+        for n, t in enumerate(grid):
+            cands = [float(exp[n])]
+            if tl[0] <= t <= tl[-1] and len(tl) in (2, 3):
+                # Lagrange form through the 2 / 3 samples, exact rational arithmetic
+                v = Fraction(0)
+                for i in range(len(tl)):
+                    w = cf[i]
+                    for j in range(len(tl)):
+                        if j != i:
+                            w = w * (t - tl[j]) / (tl[i] - tl[j])
+                    v += w
+                cands.append(float(v))
+            for e in cands:
+                if abs(row[n] - e) > 1e-9 * max(1.0, abs(e)):
+                    fail("cubic coefficient differs from the cubic spline through the channel's own samples",
+                         dict(channel=m, samples=len(tl), t=str(t), value=row[n]), dict(value=e))
+                    return
+
+
+def oracle_cubic_operator(inp, impl, proc, mats, fail):
+    """get_full_coeffs and the operator get_qobjevo hands to the solvers describe the same H(t): at every merged grid point inside
+    every channel's own grid, H(t) - sum_m c_m(t) H_m is one constant operator (the drift part)"""
+    grid = impl["full"]
+    lo = max(fr(ch["tlist"][0]) for ch in inp["channels"])
+    hi = min(fr(ch["tlist"][-1]) for ch in inp["channels"])
+    pts = [(n, t) for n, t in enumerate(grid) if lo <= t <= hi]
+    if len(pts) < 2:
+        return
+    try:
+        with warnings.catch_warnings():
+            warnings.simplefilter("ignore")
+            qe = proc.get_qobjevo(noisy=False)[0]
+            ref = None
+            for n, t in pts:
+                h = np.asarray(qe(float(t)).full())
+                for m, mat in enumerate(mats["ctrl"]):
+                    h = h - float(impl["rows"][m][n]) * mat
+                if ref is None:
+                    ref = h
+                elif float(np.max(np.abs(h - ref))) > 1e-9 * max(1.0, float(np.max(np.abs(ref)))):
+                    fail("get_full_coeffs (cubic) and the operator of get_qobjevo disagree at a merged grid point",
+                         dict(t=str(t), max_abs_dev=float(np.max(np.abs(h - ref)))), "the same H(t)")
+                    return
+    except Exception as e:
+        fail("get_qobjevo raised on a valid cubic input", repr(e)[:200], "an operator")
 
 
 # ------------------------------------------------------------------------------------------------
@@ -1087,6 +1149,24 @@ def gen_valid(rng, late=False, kind="step", nch=None):
             rng.shuffle(order)         # controls registered in another order than the pulses are stored
     return dict(dims=dims, drift=drift, channels=chans, kind=kind, ctrl_order=order,
                 mode=rng.choice(["direct", "setters"]), state_seed=rng.randint(0, 10 ** 6))
+
+
+def gen_cubic_few(rng):
+    """continuous (cubic) pulses with 2, 3, 4 or 5 samples per channel on interleaved grids: most merged grid points of one channel
+    fall strictly between the samples of another, where the value is decided by the spline alone"""
+    inp = gen_valid(rng, kind="cubic", nch=rng.choice([2, 2, 3]))
+    sizes = [2, 3, 4, 5]
+    rng.shuffle(sizes)
+    for m, ch in enumerate(inp["channels"]):
+        n = sizes[m % 4]
+        if m == 0:
+            step = rng.choice([Fraction(1, 2), Fraction(1), Fraction(3, 2)])
+            tl = [k * step for k in range(n)]
+        else:
+            tl = gen_grid(rng, start0=rng.random() < 0.8, npts=n)
+        ch["tlist"] = [enc(x) for x in tl]
+        ch["coeff"] = [enc(x) for x in gen_coeff(rng, n)]
+    return inp
 
 
 def gen_shared_labels(rng):
@@ -1427,6 +1507,8 @@ def correspond(ctx):
         inputs.append(("malformed", gen_malformed(rng)))
     for _ in range(ctx.n(40, 300)):
         inputs.append(("cubic", gen_valid(rng, kind="cubic")))
+    for _ in range(ctx.n(40, 300)):
+        inputs.append(("cubic-few-samples", gen_cubic_few(rng)))
     if ctx.thorough:
         inputs += exhaustive_small()
 
